@@ -569,14 +569,11 @@ func NewCall(pos *Position, fun Expression, args []Expression, isVariadic bool) 
 
 // String returns the string representation of n.
 func (n *Call) String() string {
-	s := operandString(n.Func)
-	switch fn := n.Func.(type) {
-	case *FuncType:
-		if len(fn.Result) == 0 {
-			s = "(" + s + ")"
-		}
-	case *ChanType:
-		s = "(" + s + ")"
+	var s string
+	if endsWithFuncOrChanType(n.Func) {
+		s = "(" + n.Func.String() + ")"
+	} else {
+		s = operandString(n.Func)
 	}
 	s += "("
 	for i, arg := range n.Args {
@@ -594,6 +591,40 @@ func (n *Call) String() string {
 	}
 	s += ")"
 	return s
+}
+
+// endsWithFuncOrChanType reports whether expr is a type whose string
+// representation ends with a function type without result or with a channel
+// type. Such a type, in a conversion, must be surrounded by parenthesis
+// otherwise the argument of the conversion would be read as part of the type.
+func endsWithFuncOrChanType(expr Expression) bool {
+	for {
+		switch t := expr.(type) {
+		case *ArrayType:
+			expr = t.ElementType
+		case *SliceType:
+			expr = t.ElementType
+		case *MapType:
+			expr = t.ValueType
+		case *UnaryOperator:
+			if t.Op != OperatorPointer {
+				return false
+			}
+			expr = t.Expr
+		case *ChanType:
+			return true
+		case *FuncType:
+			if len(t.Result) == 0 {
+				return true
+			}
+			if len(t.Result) > 1 || t.Result[0].Ident != nil {
+				return false
+			}
+			expr = t.Result[0].Type
+		default:
+			return false
+		}
+	}
 }
 
 // Case node represents "case" and "default" statements.
